@@ -114,10 +114,69 @@ def gen_shape_map(rng: random.Random, n: int, style: str):
     return ('named',)
 
 
+def _sprinkle(rng, prog, preempt):
+    if not preempt:
+        return prog
+    out = []
+    for ins in prog:
+        if rng.random() < preempt:
+            out.append(('y',))
+        out.append(ins)
+    if rng.random() < preempt:
+        out.append(('y',))
+    return out
+
+
+def gen_followup(rng: random.Random, table: list, depth: int, budget: list,
+                 preempt: float) -> int:
+    """The way passes use next(): map a batch, then per batch of results that
+    came in do some follow-up work (submit + await, another map, an await of an
+    older future) before asking for the next batch; results of the map keep
+    arriving while the task waits for something else."""
+    from harness.runtime_sim import eff_pids
+    n = rng.randint(2, 4)
+    budget[0] -= n
+    kid = lambda: gen_prog(rng, table, max(depth - 2, 0),
+                           rng.choice(['clean', 'clean', 'unawaited']),
+                           budget, preempt)
+    proto = kid()
+    kids = tuple(proto if rng.random() < 0.7 else kid() for _ in range(n))
+    sh = gen_shape_map(rng, n, 'followup')
+    first = ('m', kids) if sh is None else ('m', kids, sh)
+    n = len(eff_pids(first))
+    prog = [first]
+    nf = 1
+    if rng.random() < 0.5:       # an older future awaited in between
+        budget[0] -= 1
+        prog.append(('s', kid()))
+        nf += 1
+        if rng.random() < 0.6:
+            prog.append(('a', 1))
+    for _ in range(rng.randint(1, n + 1)):
+        prog.append(('n', 0))
+        r = rng.random()
+        if r < 0.6 and budget[0] > 0:
+            budget[0] -= 1
+            prog.append(('s', kid()))
+            prog.append(('a', nf))
+            nf += 1
+        elif r < 0.75 and budget[0] > 1:
+            budget[0] -= 2
+            prog.append(('m', (kid(), kid())))
+            prog.append(('a', nf))
+            nf += 1
+    if rng.random() < 0.5:
+        prog.append(('a', 0))
+    table.append(tuple(_sprinkle(rng, prog, preempt)))
+    return len(table) - 1
+
+
 def gen_prog(rng: random.Random, table: list, depth: int, style: str,
              budget: list, preempt: float = 0.0) -> int:
     """Appends a random program (children first) and returns its pid."""
     from harness.runtime_sim import eff_pids
+    if style == 'followup' and depth > 0 and budget[0] >= 2:
+        return gen_followup(rng, table, depth, budget, preempt)
     futs = []
     if depth > 0 and budget[0] > 0:
         nf = rng.choice([0, 1, 1, 2, 2, 3])
@@ -201,8 +260,8 @@ def gen_prog(rng: random.Random, table: list, depth: int, style: str,
     return len(table) - 1
 
 
-STYLES = ['clean', 'clean', 'next', 'cancel', 'cancel', 'unawaited',
-          'raise', 'malformed']
+STYLES = ['clean', 'clean', 'next', 'followup', 'followup', 'cancel',
+          'cancel', 'unawaited', 'raise', 'malformed']
 
 
 def gen_scenario(rng: random.Random, flavour: str | None = None) -> dict:
@@ -377,6 +436,17 @@ def check_step(sim, rec, V: Verdicts, st: dict):
         elif k == M.ERROR:
             if sim.nodes[a].kind == 'W':
                 p = mm[1]
+                # the task that was running: the last body event of this step
+                who = None
+                for i in range(len(sim.events) - 1, -1, -1):
+                    if sim.events[i][0] < rec['t']:
+                        break
+                    if sim.ev_step[i] == rec['t'] and sim.events[i][1] in (
+                            'start', 'spawn', 'await', 'saw', 'cancel',
+                            'raise'):
+                        who = sim.events[i][2]
+                        break
+                st['error_task'][(rec['t'], a)] = (who, sim.t)
                 if isinstance(p, tuple):
                     st['errors'].append((rec['t'], a, p[0],
                                          classify_error(p[1]), p[1][-600:]))
@@ -393,7 +463,8 @@ def new_state():
     return {'root_addr': {}, 'submitted': set(), 'processed': {},
             'cancel_issued': {}, 'to_worker': {}, 'errors': [],
             'client_results': [], 'client_cancel_processed': {},
-            'client_gone': {}, 'arrived': {}, 'decrements': {}}
+            'client_gone': {}, 'arrived': {}, 'decrements': {},
+            'error_task': {}}
 
 
 def evaluate(sim, quiescent: bool, st: dict, V: Verdicts) -> dict:
@@ -513,6 +584,14 @@ def evaluate(sim, quiescent: bool, st: dict, V: Verdicts) -> dict:
     for (t, w, comp, cls, txt) in st['errors']:
         ci = comp_of_mbox.get(comp)
         if comp is None or ci is None or cls not in legit.get(ci, ()):
+            # raised by a task whose CANCEL this worker handled while the
+            # task was in the middle of the step (it goes on and calls into
+            # the runtime with its mailboxes gone)?
+            who, t_end = st['error_task'].get((t, w), (None, t))
+            proc = st['processed'].get(w, {})
+            if who is not None and any(
+                    x in proc and proc[x] <= t_end for x in lineage(who)):
+                cls = cls + ':task-cancelled-midstep'
             V.add('C07', f'unexpected-error:{cls}',
                   f'{w} sent an ERROR ({cls}) that no task body raised: '
                   f'...{txt[-300:]}', t)
@@ -689,7 +768,22 @@ def evaluate(sim, quiescent: bool, st: dict, V: Verdicts) -> dict:
                 for (tg, k), (ww, mm, _) in spawn.items():
                     if (ww, mm) == (n.wid, m):
                         kid = tg + (k, 0)
-                if owner in returned:
+                # created by a task AFTER this worker's incoming thread
+                # processed the CANCEL of the task's lineage (the task was in
+                # the middle of a step and went on)?
+                proc = st['processed'].get(n.name, {})
+                ts = spawn_t.get((n.wid, m), 0)
+                zombie = any(x in proc and proc[x] < ts
+                             for x in lineage(owner))
+                if zombie:
+                    V.add('C12', 'leak:worker._mailboxes:'
+                          'created-after-midstep-cancel',
+                          f'{n.name} still holds mailbox {m} of cancelled '
+                          f'work (owner {owner}): the owner was cancelled in '
+                          'the middle of a step (CANCEL handled by the '
+                          'incoming thread) and created this future '
+                          'afterwards; nothing ever removes it', sim.t)
+                elif owner in returned:
                     # the owner finished; its completion-time clean-up
                     # neither released nor cancelled this future
                     V.add('C12', 'orphan:worker._mailboxes:owner-completed'
@@ -699,22 +793,9 @@ def evaluate(sim, quiescent: bool, st: dict, V: Verdicts) -> dict:
                           f'owner {owner} completed without awaiting it and '
                           f'the completion-time clean-up skipped it', sim.t)
                 elif cancelled_at(owner) or (kid and cancelled_at(kid)):
-                    # created by a task AFTER this worker's incoming thread
-                    # processed the CANCEL of the task's lineage (the task was
-                    # in the middle of a step and went on)?
-                    proc = st['processed'].get(n.name, {})
-                    ts = spawn_t.get((n.wid, m), 0)
-                    zombie = any(x in proc and proc[x] < ts
-                                 for x in lineage(owner))
-                    V.add('C12', 'leak:worker._mailboxes'
-                          + (':created-after-midstep-cancel' if zombie
-                             else ''),
-                          f'{n.name} still holds mailbox {m} of cancelled '
-                          f'work (owner {owner})' + (
-                              ': the owner was cancelled in the middle of a '
-                              'step (CANCEL handled by the incoming thread) '
-                              'and created this future afterwards; nothing '
-                              'ever removes it' if zombie else ''), sim.t)
+                    V.add('C12', 'leak:worker._mailboxes', f'{n.name} still '
+                          f'holds mailbox {m} of cancelled work (owner '
+                          f'{owner})', sim.t)
             if w._ready_task_ids.qsize():
                 V.add('C12', 'leak:worker._ready_task_ids', f'{n.name} ready '
                       'queue not empty at idle', sim.t)
@@ -1246,6 +1327,10 @@ SMALL_TREES = {
     # ... and the child is preempted BEFORE it creates its future
     'child-preempted-before-submit': (
         (), (('y',), ('s', 0), ('a', 0)), (('s', 1), ('c', 0))),
+    # ... and the child, cancelled in the middle of its step, cancels its own
+    # future afterwards
+    'child-preempted-then-cancels': (
+        (), (('s', 0), ('y',), ('c', 0)), (('s', 1), ('c', 0))),
     # map over argument lists of different lengths
     'map-zip-await': ((), (('m', (0, 0, 0), ('z', 3, 2)), ('a', 0))),
     'submit-await': ((), (('s', 0), ('a', 0))),
@@ -1276,6 +1361,7 @@ def small_scenarios(which='all'):
                 'submit-await/detached1/cancel',
                 'child-cancelled-at-any-point/detached1/result',
                 'child-preempted-before-submit/detached1/result',
+                'child-preempted-then-cancels/detached1/result',
                 'map-zip-await/attached1/result')
         out = [x for x in out if x[0] in keep]
     return out
